@@ -581,7 +581,7 @@ def eval_pure(fn, start_block, start_stmt, env, stop):
 
 # --------------------------------------------------------------------------- emission templates (what a writer emits, per path)
 
-def enumerate_paths(fn, start, on_call, max_paths=400, follow_errors=False):
+def enumerate_paths(fn, start, on_call, max_paths=400, follow_errors=False, on_stmt=None):
     """All acyclic success paths from block `start` to a return.  `on_call(term)` maps a call terminator to a token
     (or None).  `?` is followed on its Continue edge only.  Returns [(conds, tokens)] where conds records the boolean /
     Option / enum decisions taken: (description, outcome)."""
@@ -602,6 +602,11 @@ def enumerate_paths(fn, start, on_call, max_paths=400, follow_errors=False):
             raise CheckError("%s: loop met while enumerating emission paths (bb%d)" % (fn.name, bi))
         seen = seen | {bi}
         b = fn.blocks[bi]
+        if on_stmt is not None:
+            for st in b["s"]:
+                tk = on_stmt(st)
+                if tk is not None:
+                    toks = toks + [tk]
         t = b["t"]
         k = t["t"]
         if k == "ret":
@@ -690,3 +695,25 @@ def upvar_index(cfn, operand):
             if m:
                 return int(m.group(1))
     return None
+
+
+def root_local(fn, operand):
+    """the local whose storage an operand ultimately refers to, following `&`, reborrows and plain moves"""
+    if operand[0] == "k":
+        return None, []
+    l = operand[1][0]
+    path = list(operand[1][1:])
+    for _ in range(20):
+        sd = fn.single_def(l)
+        if sd is None:
+            break
+        rv = sd[2]
+        if rv[0] == "ref":
+            l, path = rv[2][0], list(rv[2][1:]) + path
+        elif rv[0] == "cfd":
+            l, path = rv[1][0], list(rv[1][1:]) + path
+        elif rv[0] == "use" and rv[1][0] in ("c", "m"):
+            l, path = rv[1][1][0], list(rv[1][1][1:]) + path
+        else:
+            break
+    return l, [p for p in path if p != "*"]
